@@ -50,7 +50,7 @@ func init() {
 		Assumptions: []string{
 			"go/types constant values and types.Sizes of the loaded build configuration (int is 64 bits by default, 32 bits under GOARCH=386; versions < 2^16 fit either way and every conversion through int is evaluated with the configured width)",
 			"input domain of the property: ref in [0,2^40), version in [0,2^16) (higher input bits are constant 0)",
-			"transfer functions of the interpreter: Go integer semantics of | & &^ ^ << >> + - and integer conversions (rules/c10_bitvec.go); strings.Split/SplitN/Cut/Contains/Count/Join, strings.Index/IndexByte/IndexRune/LastIndex/LastIndexByte/HasPrefix/HasSuffix/TrimPrefix/TrimSuffix, len(s), s[i] and s[a:b] over symbolic texts (byte offsets are exact cut points between text pieces), strings.Builder/bytes.Buffer locals (WriteString/WriteByte/WriteRune/Fprintf/String), * / % by constant powers of two, sort.Sort/Stable/Slice (recorded) and sort.IsSorted/SliceIsSorted (evaluated with the interpreted Len/Less), array/slice/map/struct literals and read-only package-level tables indexed by a folded bit field, make with a constant size, fmt.Sprintf with %s %d %v, string +, strconv.Itoa/FormatInt, strconv.ParseInt/ParseUint/Atoi (decimal text of a number that fits the requested width parses back to that number with a nil error; text with a non-digit gives a non-nil error), fmt.Errorf/errors.New return non-nil errors; sort.Sort/Stable/Slice contract",
+			"transfer functions of the interpreter: Go integer semantics of | & &^ ^ << >> + - and integer conversions (rules/c10_bitvec.go); strings.Split/SplitN/Cut/Contains/Count/Join, strings.Index/IndexByte/IndexRune/LastIndex/LastIndexByte/HasPrefix/HasSuffix/TrimPrefix/TrimSuffix, len(s), s[i] and s[a:b] over symbolic texts (byte offsets are exact cut points between text pieces), strings.Builder/bytes.Buffer locals (WriteString/WriteByte/WriteRune/Fprintf/String), byte buffers that build a text (append of strings and byte constants, strconv.AppendInt/AppendUint base 10, string(b), []byte(s); element stores into them are not interpreted), * / % by constant powers of two, sort.Sort/Stable/Slice (recorded) and sort.IsSorted/SliceIsSorted (evaluated with the interpreted Len/Less), array/slice/map/struct literals and read-only package-level tables indexed by a folded bit field, make with a constant size, fmt.Sprintf with %s %d %v, string +, strconv.Itoa/FormatInt, strconv.ParseInt/ParseUint/Atoi (decimal text of a number that fits the requested width parses back to that number with a nil error; text with a non-digit gives a non-nil error), fmt.Errorf/errors.New return non-nil errors; sort.Sort/Stable/Slice contract",
 			"a generic text stands for every string the interpreted code cannot tell apart from it: texts only flow into splitting, ==/!=/switch against constants, conversions, formatting and strconv; every constant such a comparison uses is tried separately",
 		},
 		LevelText:  "K1-K4 are exhaustive over the abstract domain: the bit-level abstract interpretation of the real constructor/decoder bodies covers every kind, every ref in [0,2^40) and every version in [0,2^16) at once (all 2^56 inputs per kind, every bit-field boundary and every pair for the order claim) for each build configuration. K5/K6 evaluate String and the parsers over the same domain for the round trip (every id) and over enumerated classes of malformed text (each class with a representative the code cannot distinguish from its other members); they do not decide acceptance of odd shape-conforming text.",
@@ -70,8 +70,8 @@ func init() {
 			{ID: "K6", Floor: 5, Doc: "the decimal reference / version text is parsed base 10 with a width covering the whole range (strconv calls found by the text that reaches them)", Run: c10K6},
 			{ID: "K7", Floor: 6, Doc: "every typed conversion X.NodeID()/WayID()/RelationID() panics for ids of each of the other six kinds (guard evaluated on the seven kind masks, whatever its spelling)", Run: c10K7},
 		},
-		Mutants: c10AllVariants(c10Mutants, c10MutantsRound2, c10MutantsSort, c10MutantsRepr, c10MutantsIndex, c10MutantsText, c10MutantsGuard),
-		Benign:  c10AllVariants(c10Benign, c10BenignSort, c10BenignRepr, c10BenignIndex, c10BenignText, c10BenignGuard),
+		Mutants: c10AllVariants(c10Mutants, c10MutantsRound2, c10MutantsSort, c10MutantsRepr, c10MutantsIndex, c10MutantsText, c10MutantsGuard, c10MutantsBytes),
+		Benign:  c10AllVariants(c10Benign, c10BenignSort, c10BenignRepr, c10BenignIndex, c10BenignText, c10BenignGuard, c10BenignBytes),
 	})
 }
 
